@@ -167,7 +167,7 @@ func c18WaitListening(kind, addr string) bool {
 
 func TestVerifC18Servers(t *testing.T) {
 	L := ev.Begin("C18", "c18-servers", "exploration",
-		"scenario matrix on real servers started through fabio's own ListenAndServe*: listener {http, https, tcp, grpc, https+tcp+sni} x in-flight work {none, finishes when released, never ends (hanging handler / open tunnel / open gRPC stream)} x shutdown moment {before any request, request inside its handler, released right after shutdown began}, sequenced by causal barriers (handler-entered and listener-refuses-connect signals), then proxy.Shutdown(wait); plus every ordered pair of an idle and a busy listener of different kinds whose work ends 300 ms after shutdown began, also with both on the same port number of two local addresses (127.0.0.1:P, 127.0.0.2:P). oracle: after shutdown began connects fail; released work completes with its normal result; Shutdown returns within wait + 5s slack (a miss means 'did not return'). non-trivial = every scenario")
+		"scenario matrix on real servers started through fabio's own ListenAndServe*: listener {http, https, tcp, grpc, https+tcp+sni} x in-flight work {none, finishes when released, never ends (hanging handler / open tunnel / open gRPC stream) with a wait of 300ms and of 0} x shutdown moment {before any request, request inside its handler, released right after shutdown began}, sequenced by causal barriers (handler-entered and listener-refuses-connect signals), then proxy.Shutdown(wait); plus every ordered pair of an idle and a busy listener of different kinds whose work ends 300 ms after shutdown began, also with both on the same port number of two local addresses (127.0.0.1:P, 127.0.0.2:P). oracle: after shutdown began connects fail; released work completes with its normal result; Shutdown returns within wait + 5s slack (a miss means 'did not return'). non-trivial = every scenario")
 	kinds := []string{"http", "https", "tcp", "grpc", "https+tcp+sni"}
 	type scn struct {
 		kind string
@@ -175,7 +175,7 @@ func TestVerifC18Servers(t *testing.T) {
 	}
 	var scs []scn
 	for _, k := range kinds {
-		for _, w := range []string{"none", "released", "never"} {
+		for _, w := range []string{"none", "released", "never", "never/wait=0"} {
 			scs = append(scs, scn{k, w})
 		}
 	}
@@ -297,6 +297,9 @@ func TestVerifC18Servers(t *testing.T) {
 		if s.work == "released" {
 			wait = 3 * time.Second
 		}
+		if s.work == "never/wait=0" {
+			wait = 0 // fabio's default proxy.shutdownwait: no grace at all, not "no deadline"
+		}
 		start := time.Now()
 		returned := make(chan struct{})
 		go func() { Shutdown(wait); close(returned) }()
@@ -362,7 +365,7 @@ func TestVerifC18Servers(t *testing.T) {
 			L.Violation("shutdown-did-not-return-within-the-wait/"+s.kind+"/"+s.work, d)
 		}
 		L.Sample(d)
-		if s.work == "never" {
+		if strings.HasPrefix(s.work, "never") {
 			close(w.release) // let the stuck work go so that later scenarios start clean
 		}
 	}
